@@ -22,7 +22,12 @@ import (
 type c02Map = map[string]interface{}
 
 // c02Fail marks "this record fails" (a per-record failure), as opposed to a harness error.
-type c02Fail struct{ why string }
+type c02Fail struct {
+	why string
+	// mismatch: the failure is an argument that does not fit the function's signature (count or type). Whether
+	// ignore_error covers it is not documented (it is neither an argument transform error nor the function failing).
+	mismatch bool
+}
 
 func (f *c02Fail) Error() string { return f.why }
 
@@ -202,7 +207,13 @@ func (m *c02Model) eval(decl c02Map, cur *idr.Node, underArray, isFinal bool) (i
 		}
 		res, err := c02Call(cf["name"].(string), cur, args)
 		if err != nil {
-			if _, isFail := err.(*c02Fail); isFail && ignore {
+			if f, isFail := err.(*c02Fail); isFail && ignore {
+				if f.mismatch {
+					m.usedT["arg-failure-under-ignore-error"] = true
+					if !m.ch.ArgFailureIgnored {
+						return nil, err
+					}
+				}
 				return nil, nil
 			}
 			return nil, err
@@ -372,7 +383,7 @@ func c02Call(name string, cur *idr.Node, args []interface{}) (interface{}, error
 		}
 		s, ok := args[i].(string)
 		if !ok {
-			return "", c02Failf("argument %d of %s is %T, a string is required", i+1, name, args[i])
+			return "", &c02Fail{why: fmt.Sprintf("argument %d of %s is %T, a string is required", i+1, name, args[i]), mismatch: true}
 		}
 		return s, nil
 	}
@@ -395,7 +406,7 @@ func c02Call(name string, cur *idr.Node, args []interface{}) (interface{}, error
 	}
 	fixed := func(n int) error {
 		if len(args) != n {
-			return c02Failf("%s takes %d argument(s), got %d", name, n, len(args))
+			return &c02Fail{why: fmt.Sprintf("%s takes %d argument(s), got %d", name, n, len(args)), mismatch: true}
 		}
 		return nil
 	}
